@@ -88,6 +88,19 @@ def run(chk):
   chk.ob('C02-R2', ok, None, 'DecorateCombineRule applied iff is_combine',
          'aggregation scope decoration is applied to ordinary rules or not to combines',
          fi=s.fi)
+  dc = FnView(repo, 'dialects.DecorateCombineRule')
+  ent = [n for n in dc.cfg.stmt_nodes() if isinstance(dc.cfg.stmt[n], ast.Assign) and
+         'MagicalEntangle' in norm(dc.cfg.stmt[n].value, 100000)]
+  inc = [n for n, c in dc.all_calls() if call_tail(c) == 'append' and
+         'inclusion' in norm(c, 100000)]
+  for n, r in dc.returns():
+    chk.ob('C02-R2', bool(ent) and bool(inc) and dc.cfg.must_pass_before(n, ent) and
+           dc.cfg.must_pass_before(n, inc), None,
+           'every combine rule is entangled (MagicalEntangle + `x in [0]`) before it is returned',
+           'a path of DecorateCombineRule returns the rule undecorated: an '
+           'aggregate whose argument mentions only outer columns is attached '
+           'to the outer SELECT by SQL, whatever the sub-query reads',
+           fi=dc.fi, node=r)
   ext = s.need_calls(EXTRACT)
   for n, c in ext:
     decorated = dec and c.args and isinstance(c.args[0], ast.Name) and any(
